@@ -343,6 +343,28 @@ impl PrivateBatchProver {
     }
 }
 
+/// Verification hooks (off by default): read access to a committed prover's
+/// witness and a re-arm so one prover can be committed repeatedly by a monitor.
+#[cfg(feature = "verif-hooks")]
+impl PrivateBatchProver {
+    pub fn verif_targets(&self) -> Option<PrivateBatchCircuitTargets> {
+        self.targets.clone()
+    }
+
+    pub fn verif_partial_witness(&self) -> &PartialWitness<F> {
+        &self.partial_witness
+    }
+
+    pub fn verif_dummy_template(&self) -> &ProofWithPublicInputs<F, C, D> {
+        &self.dummy_proof_template
+    }
+
+    pub fn verif_rearm(&mut self, targets: PrivateBatchCircuitTargets) {
+        self.partial_witness = PartialWitness::new();
+        self.targets = Some(targets);
+    }
+}
+
 // -----------------------------------------------------------------------------
 // Helpers
 // -----------------------------------------------------------------------------
